@@ -375,7 +375,60 @@ def schema_gates():
 
 # --------------------------------------------------------------------------- emit
 
+def lean_cel(t) -> str:
+    from lark import Tree
+
+    if isinstance(t, Tree):
+        return f"(.node .{_ident(str(t.data))} [" + ", ".join(lean_cel(c) for c in t.children) + "])"
+    return f"(.tok .{_ident(str(t.type))} {lean_str(str(t.value))})"
+
+
+def lean_strs(xs) -> str:
+    return "[" + ", ".join(lean_str(x) for x in xs) + "]"
+
+
+def _chunked(name: str, typ: str, rows: list, size: int = 25) -> list:
+    """a long list literal, in pieces (the elaborator's recursion depth)"""
+    out, names = [], []
+    for n, i in enumerate(range(0, len(rows), size)):
+        names.append(f"{name}_{n}")
+        out.append(f"def {name}_{n} : List ({typ}) := [\n" + ",\n".join(rows[i:i + size]) + "]")
+    out.append(f"def {name} : List ({typ}) := List.flatten [{', '.join(names)}]")
+    return out
+
+
+def _syntactic() -> dict:
+    """the old scan of statement shapes — information for the evidence file only: it may not understand a
+    refactored source, and nothing depends on it"""
+    out = {}
+    try:
+        disp, dok, dprob = extractor_dispatch()
+        out["dispatch"] = {"understood": bool(dok and disp), "sets": (disp or {}).get("sets"), "falls": (disp or {}).get("falls"),
+                           "caught": (disp or {}).get("caught"), "remarks": dprob}
+    except Exception as e:
+        out["dispatch"] = {"understood": False, "remarks": [repr(e)]}
+    try:
+        pats, uses_match, _ = name_patterns()
+        out["patterns"] = {"understood": bool(uses_match and len(pats) == 2), **pats}
+    except Exception as e:
+        out["patterns"] = {"understood": False, "remarks": [repr(e)]}
+    try:
+        ipat, jstyle, _ = inputs_pattern_and_join()
+        out["inputs_pattern"] = ipat
+        out["missing_join_style"] = list(jstyle) if jstyle else None
+    except Exception as e:
+        out["inputs_pattern"] = None
+    try:
+        out["gates"] = dict(schema_gates())
+    except Exception:
+        out["gates"] = None
+    return out
+
+
 def extract() -> dict:
+    import importlib.util
+    import sys
+
     info: dict = {}
     ok = True
     problems: list[str] = []
@@ -390,38 +443,59 @@ def extract() -> dict:
     except Exception as e:
         rules, ok = [], False
         problems.append(f"grammar: {e!r}")
+
+    # ---- facts obtained by probing the real code
+    here = Path(__file__).resolve().parent
+    spec = importlib.util.spec_from_file_location("extractors__cel_probes", here / "_cel_probes.py")
+    probes_mod = importlib.util.module_from_spec(spec)
+    sys.modules.setdefault("extractors__cel_probes", probes_mod)
+    spec.loader.exec_module(probes_mod)
+    ext_rows, name_rows, ov_rows, gate_rows, coverage = [], [], [], [], []
+    raised_rows = 0
     try:
-        disp, dok, dprob = extractor_dispatch()
-        ok = ok and dok and disp is not None
-        problems += dprob
-    except Exception as e:
-        disp, ok = None, False
-        problems.append(f"dispatch: {e!r}")
-    try:
-        pats, uses_match, psha = name_patterns()
-        if not uses_match or len(pats) != 2:
-            ok = False
-            problems.append("name patterns not found or not used with .match")
-    except Exception as e:
-        pats, psha, ok = {}, "", False
-        problems.append(f"patterns: {e!r}")
-    gates = schema_gates()
-    try:
-        ipat, jstyle, isha = inputs_pattern_and_join()
-        if ipat is None or jstyle is None:
-            ok = False
-            problems.append("INPUTS_NAME_PATTERN or the join of the missing input names not found")
-    except Exception as e:
-        ipat, jstyle, isha, ok = None, None, "", False
-        problems.append(f"inputs pattern: {e!r}")
+        import logging
+
+        import celpy
+
+        logging.disable(logging.CRITICAL)
+        cel_env = celpy.Environment()
+        for pos, k, t, got in probes_mod.extractor_probes(cel_env):
+            ext_rows.append(f"  ({lean_cel(t)}, {'none' if got is None else 'some ' + lean_strs(got)})")
+            raised_rows += got is None
+            if pos in probes_mod.POSITIONS:
+                coverage.append((pos, k))
+        for src, ast_, obs, pp in probes_mod.name_probes(cel_env):
+            if obs[0] == "step":
+                o = f"(.step {lean_strs(obs[1])})"
+            elif obs[0] == "err" and obs[1] in ("permFail", "retry"):
+                o = f"(.err .{obs[1]})"
+            else:
+                o = ".raised"
+            name_rows.append(f"  ({lean_cel(ast_)}, {o}, {lean_strs(pp)})")
+        for keys, provided, obs in probes_mod.overlay_probes():
+            o = ".complete" if obs[0] == "complete" else f"(.missing {lean_strs(obs[1])})" if obs[0] == "missing" else ".raised"
+            if obs[0] == "other":
+                ok = False
+                problems.append(f"overlay probe ended as {obs}")
+            ov_rows.append(f"  ({lean_strs(keys)}, {lean_strs(provided)}, {o})")
+        for kind, i, okay in probes_mod.gate_probes():
+            gate_rows.append(f"({lean_str(kind)}, {'true' if okay else 'false'})")
+    except Exception as e:  # the code under test could not even be imported / probed
+        ok = False
+        problems.append(f"probing: {e!r}")
 
     lines = [
-        "-- REGENERATED by harness/extractors/CelTables.py from celpy's cel.lark (as compiled by lark),",
-        "-- src/koreo/cel/structure_extractor.py, src/koreo/workflow/prepare.py and the five prepare_* coroutines;",
-        "-- do not edit.",
-        "import Koreo.CelAst",
+        "-- REGENERATED by harness/extractors/CelTables.py on every run; do not edit.",
+        "--   rules:          celpy's cel.lark as lark compiled it",
+        "--   probes:         small parse trees covering every node type at every position the reference extractor looks at",
+        "--                   (+ parsed odd-receiver expressions) -> what the real extract_argument_structure returned",
+        "--   nameProbes:     expressions in a step's inputs of a real prepare_workflow -> recorded dependencies / error, parent properties",
+        "--   overlayProbes:  cached ValueFunction keys + provided inputs -> what the real _prepare_overlays reported missing",
+        "--   gateProbes:     schema-violating specs -> rejected with PermFail before anything was compiled or looked up",
+        "import Koreo.WorkflowPrep",
+        "set_option maxRecDepth 10000",
         "namespace Koreo.Gen.CelTables",
-        "open Koreo.CelAst",
+        "open Koreo.CelAst Koreo.WorkflowPrep",
         f"def extractionOk : Bool := {'true' if ok else 'false'}",
         "def rules : Grammar := [",
     ]
@@ -431,21 +505,13 @@ def extract() -> dict:
         rl.append(f"  ⟨{o}, [{', '.join(lean_sym(s) for s in rhs)}]⟩")
     lines.append(",\n".join(rl))
     lines.append("]")
-    sets = (disp or {}).get("sets", {v: [] for v in SETS.values()})
-    falls = (disp or {}).get("falls", {n: "raise" for ns in RAISE_NAMES.values() for n in ns})
-    lines.append("def dispatch : Dispatch where")
-    for field in ["top", "dotRoots", "argRoots", "idxRoots", "idxTerms", "primKinds"]:
-        lines.append(f"  {field} := [{', '.join('.' + _ident(k) for k in sets.get(field, []))}]")
-    for ns in RAISE_NAMES.values():
-        for n in ns:
-            lines.append(f"  {n} := .{falls.get(n, 'raise')}")
-    lines.append(f"def stepsPattern : String := {lean_str(pats.get('STEPS_NAME_PATTERN', ''))}")
-    lines.append(f"def parentPattern : String := {lean_str(pats.get('PARENT_NAME_PATTERN', ''))}")
-    lines.append(f"def inputsPattern : String := {lean_str(ipat or '')}")
-    lines.append("def missingJoinStyle : JoinStyle := ." + (jstyle[0] if jstyle else "raw") + " "
-                 + ("true" if (jstyle and jstyle[1]) else "false"))
-    lines.append("def gates : List (String × Bool) := [" + ", ".join(
-        f"({lean_str(n)}, {'true' if g else 'false'})" for n, g in gates) + "]")
+    lines += _chunked("probes", "Cel × Option (List String)", ext_rows)
+    lines.append("def probeCoverage : List (String × Kind) := ["
+                 + ", ".join(f"({lean_str(p_)}, .{_ident(k)})" for p_, k in sorted(set(coverage))) + "]")
+    lines.append(f"def knownLabels : List String := {lean_strs(probes_mod.KNOWN_LABELS)}")
+    lines += _chunked("nameProbes", "Cel × NameObs × List String", name_rows, size=10)
+    lines.append("def overlayProbes : List (List String × List String × OverlayObs) := [\n" + ",\n".join(ov_rows) + "]")
+    lines.append("def gateProbes : List (String × Bool) := [" + ", ".join(gate_rows) + "]")
     lines += ["end Koreo.Gen.CelTables", ""]
     text = "\n".join(lines)
     GEN.mkdir(parents=True, exist_ok=True)
@@ -454,29 +520,15 @@ def extract() -> dict:
     if changed:
         p.write_text(text)
 
-    # the (context, kind) pairs the grammar admits and the extractor neither handles nor skips
-    missing = []
-    try:
-        member_kinds = [rhs[0][1] for o, rhs, _ in rules if o == ("rule", "member") and len(rhs) == 1]
-        primary_kinds = [rhs[0][1] for o, rhs, _ in rules if o == ("rule", "primary") and len(rhs) == 1]
-        for ctx, field, fall, kinds in [("member_dot receiver", "dotRoots", "dotRoot", member_kinds),
-                                        ("member_dot_arg receiver", "argRoots", "argRoot", member_kinds),
-                                        ("member_index receiver", "idxRoots", "idxRoot", member_kinds),
-                                        ("primary child", "primKinds", "primKind", primary_kinds)]:
-            if falls.get(fall) != "skip":
-                missing += [[ctx, k] for k in kinds if k not in sets.get(field, [])]
-        if falls.get("argLen") != "skip":
-            missing.append(["member_dot_arg receiver", "member_dot_arg without arguments"])
-        if falls.get("idxEmpty") != "skip":
-            missing.append(["member_index index", "expression whose leftmost leaf is not a named primary"])
-    except Exception:
-        pass
+    syn = _syntactic()
     info.update({
         "ok": ok, "rewritten": changed, "problems": problems, "rules": len(rules),
-        "dispatch": {"sets": sets, "falls": falls, "caught": (disp or {}).get("caught")},
-        "patterns": pats, "inputs_pattern": ipat, "missing_join_style": list(jstyle) if jstyle else None,
-        "gates": dict(gates), "unhandled_contexts": missing,
-        "sha": {"structure_extractor.py": (disp or {}).get("sha"), "workflow/prepare.py": psha},
+        "probes": {"extractor": len(ext_rows), "extractor_raised": raised_rows, "names": len(name_rows),
+                   "overlay": len(ov_rows), "gate": len(gate_rows), "positions_x_kinds": len(set(coverage))},
+        "syntactic_scan (information only)": syn,
+        "sha": {"structure_extractor.py": _sha(SRC / "cel" / "structure_extractor.py"),
+                "workflow/prepare.py": _sha(SRC / "workflow" / "prepare.py"),
+                "resource_function/prepare.py": _sha(SRC / "resource_function" / "prepare.py")},
     })
     return info
 
